@@ -90,7 +90,10 @@ def registry_writes(fn: ast.AST):
                     out.append((n, [], "delete"))
         elif isinstance(n, ast.Call) and isinstance(n.func, ast.Attribute) and n.func.attr in MUTATORS:
             if rooted_in_registry(n.func.value, al):
-                out.append((n, list(n.args) + [k.value for k in n.keywords], "call-" + n.func.attr))
+                vals = list(n.args) + [k.value for k in n.keywords]
+                if n.func.attr in ("setdefault", "insert", "__setitem__"):
+                    vals = vals[1:]  # the first argument is the key / index, not a stored value
+                out.append((n, vals, "call-" + n.func.attr))
     return out
 
 
